@@ -11,11 +11,13 @@ theorem create_inv (w : World) (f : Bool) (n : Nat) (h : WInv w) : WInv (opCreat
   unfold opCreate
   by_cases hf : f = true
   · simp only [hf, if_true]
-    refine ⟨⟨by simp [Disk.absent], by simp [Disk.absent]⟩, ?_, by simp [IndexOk, Disk.absent]⟩
+    refine ⟨⟨by simp [Disk.absent], by simp [Disk.absent]⟩, ?_, by simp [IndexOk, Disk.absent], MemStale.of_not_mem rfl⟩
     intro s hs; cases hs
     refine ⟨rfl, by simp [Cache.empty], by simp, by simp, by simp [Disk.absent], by simp [Cache.empty], by simp⟩
   · simp only [hf]
-    refine ⟨hc.disk, ?_, ?_⟩
+    refine ⟨hc.disk, ?_, ?_, ?_⟩
+    rotate_left 2
+    · intro s hs _ _ he; cases hs; simp [Cache.empty] at he
     · intro s hs; cases hs
       refine ⟨rfl, by simp [Cache.empty], by simp [Cache.empty], by simp [Cache.empty], by simp, by simp, by simp⟩
     · intro hx hst
@@ -37,7 +39,7 @@ theorem open_inv (w : World) (m : Mode) (n : Nat) (hm : m ≠ .create) (h : WInv
   unfold opOpen
   by_cases hpres : (closeSess w).disk.present = true
   · simp only [hpres, Bool.not_true, Bool.false_eq_true, if_false]
-    refine ⟨hc.disk, ?_, ?_⟩
+    refine ⟨hc.disk, ?_, ?_, MemStale.of_not_mem rfl⟩
     · intro s hs'; cases hs'
       refine ⟨rfl, by simp [Cache.empty], by simp, by simp, by simp [hpres], by simp, ?_⟩
       intro _ _
@@ -87,6 +89,12 @@ theorem Frame.trans {a b c : Sess} (h1 : Frame a b) (h2 : Frame b c) : Frame a c
    h2.nextIndex.trans h1.nextIndex, h2.indexable.trans h1.indexable, h2.stale.trans h1.stale,
    h2.maxBytes.trans h1.maxBytes,
    fun hl => (h2.entries (by rw [h1.linked]; exact hl)).trans (h1.entries hl)⟩
+
+theorem MemStale.frame {d d' : Disk} {s s' : Sess} (h : MemStale ⟨d, some s⟩) (hl : s.mem = true → s.linked = false)
+    (hfr : Frame s s') : MemStale ⟨d', some s'⟩ := by
+  intro t ht hm hi he; cases ht
+  rw [hfr.mem] at hm; rw [hfr.indexable] at hi; rw [hfr.entries (hl hm)] at he; rw [hfr.stale]
+  exact h s rfl hm hi he
 
 theorem Frame.absSess {s s' : Sess} (d : Disk) (h : Frame s s') : absSess d s' = absSess d s := by
   unfold Aeic.Store.absSess absSchema
